@@ -8,11 +8,12 @@ RULE = ('HIST: seeded, model-directed edit histories (add/remove/link/symlink/hi
         'swarm-drawn configuration, mastered to a SimDisk and reopened; a run is non-trivial if it has >= 3 accepted '
         'edits and >= 1 write+reopen; distinct = distinct (configuration, per-namespace shape, blob/boot counters) fingerprints')
 BUDGET = {'quick': 40, 'thorough': 900}
-PROBES = ['live_view_checked', 'reopen_view_checked']
+PROBES = ['live_view_checked', 'reopen_view_checked', 'removed_name_lookups']
 ASSUMPTIONS = ['the reference model (isosim/model.py) states what the documented API implies',
                'attributable content PRF(blob) stands for arbitrary file contents']
 
 PROFILE = H.Profile('c01', nops=(3, 22), final_restart=True)
+PROFILE.multi_extent_rate = 0.12       # >4 GiB multi-extent files, through the guarded threshold hook (level 3/4 runs only)
 
 
 class C01(H.Oracle):
@@ -30,14 +31,55 @@ class C01(H.Oracle):
             ctx.violate((phase, 'observe-exception', out.etype, out.where), out.msg)
             return
         for kw, mm in anomalies:
-            ctx.violate((phase, 'read-route-mismatch', sorted(kw)[0]), '%s %s' % (kw, mm))
-            return
+            # the two read routes disagree; the view below is built from get_file_from_iso_fp, so it is still judged
+            ctx.violate((phase, 'read-route-mismatch', sorted(kw)[0]), '%s %s' % (kw, mm), fatal=False)
         mm = O.compare_views(d.model.view(), view)
         if mm:
             ns, kind, path, ev, ov = mm[0]
             ctx.violate((phase,) + O.mismatch_sig(mm[0]), 'path=%r expected=%r observed=%r (+%d more)' % (path, ev, ov, len(mm) - 1))
 
+    def before_edit(self, ctx, op):
+        # remember how the names that are about to go are addressed (Rock Ridge paths need the tree as it is now)
+        self._gone = []
+        m = ctx.model
+        k = op['op']
+        targets = []
+        if k in ('rm_link', 'rm_file'):
+            n = m.get(op['ns'], op['path'])
+            if k == 'rm_file' and n is not None and isinstance(n.blob, int) and not n.noinode:
+                targets = list(m.names_of_blob(n.blob))
+            else:
+                targets = [(op['ns'], op['path'])]
+        elif k == 'rm_dir':
+            targets = [(ns, op[ns]) for ns in ('iso', 'joliet', 'udf') if op.get(ns)]
+        for ns, p in targets:
+            self._gone.append(({'iso': 'iso_path', 'joliet': 'joliet_path', 'udf': 'udf_path'}[ns], p))
+            if ns == 'iso' and m.rr:
+                rp = _rr_path(m, p)
+                if rp:
+                    self._gone.append(('rr_path', rp))
+
+    def check_gone(self, ctx):
+        """Nothing else appears: a name that was just removed cannot be looked up any more."""
+        for kw, p in getattr(self, '_gone', []):
+            if kw == 'rr_path':
+                if ctx.model.get_rr(p) is not None:
+                    continue
+            elif ctx.model.get({'iso_path': 'iso', 'joliet_path': 'joliet', 'udf_path': 'udf'}[kw], p) is not None:
+                continue
+            ctx.probes['removed_name_lookups'] += 1
+            try:
+                ctx.d.iso.get_record(**{kw: p})
+            except ctx.d.pexc.PyCdlibInvalidInput:
+                continue
+            except Exception as e:   # noqa
+                ctx.violate(('live', 'removed-name-lookup', kw, 'raised', type(e).__name__), '%s: %r' % (p, e), fatal=False)
+                continue
+            ctx.violate(('live', 'removed-name-still-resolves', kw), 'get_record(%s=%r) still returns a record after the entry was removed' % (kw, p), fatal=False)
+        self._gone = []
+
     def on_edit(self, ctx, op, out):
+        self.check_gone(ctx)
         if ctx.accepted_edits % self.live_every == 0:
             ctx.probes['live_view_checked'] += 1
             self.check_view(ctx, 'live')
@@ -45,6 +87,17 @@ class C01(H.Oracle):
     def on_reopen(self, ctx):
         ctx.probes['reopen_view_checked'] += 1
         self.check_view(ctx, 'restart')
+
+
+def _rr_path(m, iso_path):
+    node = m.roots['iso']
+    out = ''
+    for c in iso_path.split('/')[1:]:
+        node = node.children.get(c) if node is not None and node.kind == 'dir' else None
+        if node is None or node.rr is None:
+            return None
+        out += '/' + node.rr
+    return out
 
 
 def generate(seed, tier='quick'):
